@@ -7,6 +7,8 @@
 import hashlib, os, shutil, subprocess, itertools, time
 from vlib import build as B, core
 from gen import c14_import as G
+from gen import c14_round5 as R5
+import sys
 
 HERE = os.path.dirname(os.path.abspath(__file__))
 ROOT = os.path.dirname(HERE)
@@ -209,11 +211,14 @@ class Lib:
         if "erw" in self.defs:
             body.append("(define-syntax erw (er-macro-transformer (lambda (form rename compare) (if %s "
                         "`(,(rename 'let) ((,(rename 'tmp) 1)) ,(car (cddr form))) `(,(rename 'quote) (v14mac %s erw))))))" % (ok, t))
+        # (round 5) pattern variables are named outside every name pool: a library may import (scheme base)'s ... under ANY pool name --
+        # e.g. (rename (v14 g l1) (otherwise x)) with l1 exporting (rename ... otherwise) -- and a pattern (_ x) is then (_ <ellipsis>):
+        # "bad ellipsis", the library legitimately fails to load (seen in the thorough tier: g78 l3, g184 l2)
         if "lit" in self.defs:
-            body.append("(define-syntax lit (syntax-rules () ((_ . r) '(v14mac %s lit))))" % t)
+            body.append("(define-syntax lit (syntax-rules () ((_ . c14-rest) '(v14mac %s lit))))" % t)
         if "mlit" in self.defs:
             body.append("(define-syntax mlit (syntax-rules (lit else => ulit) ((_ lit) '(v14lit %s lit)) ((_ else) '(v14lit %s else)) ((_ =>) '(v14lit %s =>)) "
-                        "((_ ulit) '(v14lit %s ulit)) ((_ x) '(v14lit %s no)) ((_ . r) '(v14mac %s mlit))))" % (t, t, t, t, t, t))
+                        "((_ ulit) '(v14lit %s ulit)) ((_ c14-pv) '(v14lit %s no)) ((_ . c14-rest) '(v14mac %s mlit))))" % (t, t, t, t, t, t))
         if "elit" in self.defs:
             body.append("(define-syntax elit (er-macro-transformer (lambda (form rename compare) (if (and (pair? (cdr form)) (null? (cddr form))) "
                         "(list (rename 'quote) (list 'v14lit '%s (cond ((compare (cadr form) (rename 'lit)) 'lit) ((compare (cadr form) (rename 'else)) 'else) "
@@ -719,7 +724,16 @@ def run(ctx):
                        "ulit that no library defines, probed before and after the program evaluated the unbound name (R7RS 4.3.2); 45 % of the libraries put "
                        "one declaration (a definition or an export) under cond-expand (decoys in every clause but the first true one), 30 % keep 1-2 "
                        "definitions in an included file; the chibi processes run on a pool of 3 threads.  thorough adds the enumeration of "
-                       "all import sets of depth <= 2 over a 4-name library with swapped renamed exports (11+ id lists, 8 rename lists, 3 prefixes).")
+                       "all import sets of depth <= 2 over a 4-name library with swapped renamed exports (11+ id lists, 8 rename lists, 3 prefixes).  "
+                       "round 5: (a) 12 (thorough 150) graphs with an (export-all) library whose body has definitions, procedures and dead code referring to "
+                       "earlier, LATER (forward), imported and DANGLING names (preferably names other libraries export): (env-exports (module-env lib)) vs the "
+                       "extracted ExportAll.env_exports/eval_body (order included), then 12 (24) environments importing it under every modifier and plain, before "
+                       "and after other libraries exporting the same names, optionally one import BEFORE the library was loaded; every candidate name evaluated "
+                       "vs Spec.program_origin over the world in which the library exports what the model says; (b) 5 (60) macro libraries exporting 42 "
+                       "syntax-rules macros = 14 template shapes (plain, without pattern variables, ellipsis depth 1/2, ellipsis followed by a tail, (... ...), (... tmpl), (... tmpl) with a literal ellipsis, dotted tail, "
+                       "vector (with / without pattern variables) handed to a private macro, custom ellipsis, let-syntax and define-syntax generating macros) x private name as operator / operand / "
+                       "under quasiquote-unquote, the private names defined in the library or privately imported (only/prefix/rename); each used by an importer "
+                       "lacking the names, binding them locally, importing other bindings of them from a user library (either order) and defining them at top level.")
     # ------------------------------------------------------------------ (G) + (T)
     split = ctx.cov.setdefault("wall_split_s", {})
     t0 = time.time()
@@ -960,6 +974,17 @@ def run(ctx):
                             l["model"] = [l["model"][i] for i in keep]
     if gen_exe is None:
         ctx.note("inner correspondence skipped: the translated code could not be regenerated / extracted")
+
+    # ------------------------------------------------------------------ round 5: (export-all) libraries; template shapes of exported macros
+    r5_seed = rng.getrandbits(48)
+    try:
+        R5.run(sys.modules[__name__], ctx, d, spec_exe, moddir, r5_seed)
+    except subprocess.TimeoutExpired as e:
+        ctx.broken("correspondence:round5", "a round-5 process timed out: %s" % e)
+    lap("round5")
+    if os.environ.get("C14_ONLY_R5"):          # development aid: only the round-5 streams (never set by ./check itself)
+        ctx.note("C14_ONLY_R5 is set: only the round-5 streams were run")
+        return
 
     # ------------------------------------------------------------------ implementation + verdicts
     sampled = 0
